@@ -116,6 +116,11 @@ class Resource:
     def dispose(self):
         self.disposals.append((self.env.sched.tick(), self.env.sched._clock))
 
+    def __len__(self):
+        # falsy on purpose, like an (initially) empty CompositeDisposable used as a bag of handles: whether a resource exists
+        # must not be decided by its truthiness
+        return 0
+
 
 class Case:
     """One execution: builds the pipeline with probes, applies the deviation, collects observations."""
